@@ -279,7 +279,7 @@ func TestC18(t *testing.T) {
 	crypto := aead.NewAES256GCM()
 	static, _ := kms.NewStatic(master, crypto)
 	defer static.Close()
-	n := ev.Pick(40, 2500)
+	n := ev.Pick(40, 1200)
 	ctx := context.Background()
 
 	// known answers: McGrew-Viega test cases 13 and 14 (AES-256, 96-bit IV of zeros)
